@@ -716,3 +716,507 @@ pub fn gen_cases(flavor: &str, rng: &mut Rng, n: usize, out: &mut dyn std::io::W
         writeln!(out, "end").unwrap();
     }
 }
+
+
+// ---------------------------------------------------------------------------------------------
+// Property oracles. They judge the IMPLEMENTATION's receipts against a direct, spec-level reading of
+// the properties (amount arithmetic only: what a container holds, which proofs are alive, what is on
+// the worktop) — no lock multisets, no index orders, nothing shared with the Lean model.
+//   * `check_success`: the transaction succeeded, so every instruction succeeded; replay the ops at
+//     spec level and check each property clause at the point where it applies.
+//   * `predict_pure`: for the fungible-only fragments where the properties determine the outcome
+//     completely, predict success / the failing class and compare.
+// ---------------------------------------------------------------------------------------------
+
+fn valid_amt(a: i128, r: usize) -> bool {
+    if r == NF {
+        a >= 0 && a % unit() == 0
+    } else {
+        a >= 0 && a % 10i128.pow(18 - DIVS[r] as u32) == 0
+    }
+}
+
+#[derive(Clone)]
+struct Obj {
+    res: usize,
+    total: i128,           // what the bucket holds (liquid + locked), attos
+    ids: BTreeSet<u64>,    // non-fungible content (meaningless once `fuzzy`)
+}
+#[derive(Clone, PartialEq)]
+enum PSrc {
+    Vault(usize),
+    Obj(usize),
+}
+#[derive(Clone)]
+struct PProof {
+    src: PSrc,
+    amt: i128,
+    ids: BTreeSet<u64>,
+}
+
+fn fail(k: &str, i: usize, op: &Op, d: String) -> Option<(String, String)> {
+    Some((format!("{}:{}", k, format!("{:?}", op).split('(').next().unwrap_or("")), format!("op #{} {:?}: {}", i, op, d)))
+}
+
+/// The transaction SUCCEEDED: every clause of C09/C10 that applies to a successful run.
+pub fn check_success(ops: &[Op], queries: &[Decimal], balances: &[Decimal], supplies: &[Decimal], nf_ids: &str, deltas: &BTreeMap<usize, String>, foreign_vault: bool, new_vaults: usize) -> Option<(String, String)> {
+    let u = unit();
+    let mut t: [i128; NRES] = [100 * u, 100 * u, 100 * u, 8 * u];
+    let mut vids: BTreeSet<u64> = (1..=NF_START).collect();
+    let mut burned: [i128; NRES] = [0; NRES];
+    let mut objs: Vec<Obj> = vec![];
+    let mut wt: [Option<usize>; NRES] = [None; NRES];
+    let mut named: Vec<Option<usize>> = vec![];
+    let mut proofs: Vec<Option<PProof>> = vec![];
+    let mut fuzzy = false; // an amount-based non-fungible take happened: which ids moved is not known at spec level
+    let mut qi = 0usize;
+    let set = |v: &Vec<u64>| -> BTreeSet<u64> { v.iter().cloned().collect() };
+    let maxlive = |proofs: &Vec<Option<PProof>>, src: &PSrc| -> i128 { proofs.iter().flatten().filter(|p| &p.src == src).map(|p| p.amt).max().unwrap_or(0) };
+    let lockedids = |proofs: &Vec<Option<PProof>>, src: &PSrc| -> BTreeSet<u64> { proofs.iter().flatten().filter(|p| &p.src == src).flat_map(|p| p.ids.iter().cloned()).collect() };
+    // put an object on the worktop (merging into an existing bucket of the resource)
+    fn wput(objs: &mut Vec<Obj>, wt: &mut [Option<usize>; NRES], o: usize) {
+        let r = objs[o].res;
+        if objs[o].total == 0 {
+            return;
+        }
+        match wt[r] {
+            Some(e) => {
+                let (tt, ii) = (objs[o].total, objs[o].ids.clone());
+                objs[e].total += tt;
+                objs[e].ids.extend(ii);
+            }
+            None => wt[r] = Some(o),
+        }
+    }
+    for (i, op) in ops.iter().enumerate() {
+        match op {
+            Op::Withdraw(r, a) | Op::VBurn(r, a) | Op::Recall(r, a) => {
+                if !valid_amt(*a, *r) {
+                    return fail("c10-divisibility", i, op, "an amount violating the divisibility was taken".into());
+                }
+                let ml = maxlive(&proofs, &PSrc::Vault(*r));
+                if *a > t[*r] - ml {
+                    return fail("c10-take-under-proof", i, op, format!("took {} from a vault holding {} with a live proof of {}", a, t[*r], ml));
+                }
+                t[*r] -= *a;
+                if let Op::VBurn(..) = op {
+                    burned[*r] += *a;
+                } else {
+                    objs.push(Obj { res: *r, total: *a, ids: BTreeSet::new() });
+                    let o = objs.len() - 1;
+                    wput(&mut objs, &mut wt, o);
+                }
+            }
+            Op::WithdrawNf(ids) | Op::VBurnNf(ids) | Op::RecallNf(ids) => {
+                let is = set(ids);
+                let locked = lockedids(&proofs, &PSrc::Vault(NF));
+                if let Some(x) = is.iter().find(|x| locked.contains(x)) {
+                    return fail("c10-take-under-proof", i, op, format!("non-fungible {} was taken while a proof of it is alive", x));
+                }
+                if let Some(x) = is.iter().find(|x| !vids.contains(x)) {
+                    return fail("c09-take-more-than-put", i, op, format!("non-fungible {} taken from a vault that does not hold it", x));
+                }
+                for x in &is {
+                    vids.remove(x);
+                }
+                t[NF] -= is.len() as i128 * u;
+                if let Op::VBurnNf(..) = op {
+                    burned[NF] += is.len() as i128 * u;
+                } else {
+                    objs.push(Obj { res: NF, total: is.len() as i128 * u, ids: is });
+                    let o = objs.len() - 1;
+                    wput(&mut objs, &mut wt, o);
+                }
+            }
+            Op::VProof(r, a) => {
+                if !valid_amt(*a, *r) || *a == 0 {
+                    return fail("c10-divisibility", i, op, "a proof of an invalid or zero amount was created".into());
+                }
+                if *a > t[*r] {
+                    return fail("c10-proof-exceeds-total", i, op, format!("proof of {} on a vault holding {}", a, t[*r]));
+                }
+                proofs.push(Some(PProof { src: PSrc::Vault(*r), amt: *a, ids: BTreeSet::new() }));
+            }
+            Op::VProofNf(ids) => {
+                let is = set(ids);
+                if is.is_empty() || is.iter().any(|x| !vids.contains(x)) {
+                    return fail("c10-proof-exceeds-total", i, op, "proof of non-fungibles the vault does not hold (or empty)".into());
+                }
+                proofs.push(Some(PProof { src: PSrc::Vault(NF), amt: 0, ids: is }));
+            }
+            Op::Balance(r) => {
+                let got = queries[qi].attos().to_string();
+                qi += 1;
+                if got != t[*r].to_string() {
+                    return fail("c10-total-changed", i, op, format!("vault reports {} but holds {} by the books (proofs must not change the amount)", got, t[*r]));
+                }
+            }
+            Op::Take(r, a) => {
+                if *a == 0 {
+                    objs.push(Obj { res: *r, total: 0, ids: BTreeSet::new() });
+                    named.push(Some(objs.len() - 1));
+                    continue;
+                }
+                let e = match wt[*r] {
+                    Some(e) => e,
+                    None => return fail("c09-take-more-than-put", i, op, "took a non-zero amount of a resource that is not on the worktop".into()),
+                };
+                if *a > objs[e].total || *a < 0 {
+                    return fail("c09-take-more-than-put", i, op, format!("took {} with {} on the worktop", a, objs[e].total));
+                }
+                if *a == objs[e].total {
+                    wt[*r] = None;
+                    named.push(Some(e));
+                } else {
+                    if !valid_amt(*a, *r) {
+                        return fail("c10-divisibility", i, op, "an amount violating the divisibility was taken".into());
+                    }
+                    let ml = if *r == NF { lockedids(&proofs, &PSrc::Obj(e)).len() as i128 * u } else { maxlive(&proofs, &PSrc::Obj(e)) };
+                    if *a > objs[e].total - ml {
+                        return fail("c10-take-under-proof", i, op, format!("took {} from a bucket holding {} with {} behind live proofs", a, objs[e].total, ml));
+                    }
+                    objs[e].total -= *a;
+                    if *r == NF {
+                        fuzzy = true;
+                    }
+                    objs.push(Obj { res: *r, total: *a, ids: BTreeSet::new() });
+                    named.push(Some(objs.len() - 1));
+                }
+            }
+            Op::TakeAll(r) => match wt[*r].take() {
+                Some(e) => named.push(Some(e)),
+                None => {
+                    objs.push(Obj { res: *r, total: 0, ids: BTreeSet::new() });
+                    named.push(Some(objs.len() - 1));
+                }
+            },
+            Op::TakeNf(ids) => {
+                let is = set(ids);
+                if is.is_empty() {
+                    objs.push(Obj { res: NF, total: 0, ids: BTreeSet::new() });
+                    named.push(Some(objs.len() - 1));
+                    continue;
+                }
+                let e = match wt[NF] {
+                    Some(e) => e,
+                    None => return fail("c09-take-more-than-put", i, op, "took non-fungibles from an empty worktop".into()),
+                };
+                if !fuzzy {
+                    if let Some(x) = is.iter().find(|x| !objs[e].ids.contains(x)) {
+                        return fail("c09-take-more-than-put", i, op, format!("took non-fungible {} which is not on the worktop", x));
+                    }
+                }
+                if is.len() as i128 * u > objs[e].total {
+                    return fail("c09-take-more-than-put", i, op, "took more non-fungibles than the worktop holds".into());
+                }
+                if is.len() as i128 * u == objs[e].total {
+                    wt[NF] = None;
+                    named.push(Some(e));
+                } else {
+                    let locked = lockedids(&proofs, &PSrc::Obj(e));
+                    if let Some(x) = is.iter().find(|x| locked.contains(x)) {
+                        return fail("c10-take-under-proof", i, op, format!("non-fungible {} was taken out of a bucket while a proof of it is alive", x));
+                    }
+                    for x in &is {
+                        objs[e].ids.remove(x);
+                    }
+                    objs[e].total -= is.len() as i128 * u;
+                    objs.push(Obj { res: NF, total: is.len() as i128 * u, ids: is });
+                    named.push(Some(objs.len() - 1));
+                }
+            }
+            Op::Return(b) | Op::Burn(b) | Op::Deposit(b) => {
+                let o = match named.get_mut(*b as usize).and_then(|x| x.take()) {
+                    Some(o) => o,
+                    None => return fail("c09-use-after-consume", i, op, "a bucket id that is not live was accepted".into()),
+                };
+                let has_proof = proofs.iter().flatten().any(|p| p.src == PSrc::Obj(o));
+                match op {
+                    Op::Return(_) => {
+                        if has_proof && objs[o].total != 0 && wt[objs[o].res].is_some() {
+                            return fail("c10-take-under-proof", i, op, "a bucket with a live proof was merged away".into());
+                        }
+                        wput(&mut objs, &mut wt, o);
+                    }
+                    Op::Burn(_) => {
+                        if has_proof {
+                            return fail("c10-take-under-proof", i, op, "a bucket with a live proof was burned".into());
+                        }
+                        burned[objs[o].res] += objs[o].total;
+                    }
+                    _ => {
+                        if has_proof {
+                            return fail("c10-take-under-proof", i, op, "a bucket with a live proof was deposited".into());
+                        }
+                        let r = objs[o].res;
+                        t[r] += objs[o].total;
+                        if r == NF {
+                            vids.extend(objs[o].ids.iter().cloned());
+                        }
+                    }
+                }
+            }
+            Op::DepositAll => {
+                for r in 0..NRES {
+                    if let Some(o) = wt[r].take() {
+                        if proofs.iter().flatten().any(|p| p.src == PSrc::Obj(o)) {
+                            return fail("c10-take-under-proof", i, op, "a bucket with a live proof was deposited".into());
+                        }
+                        t[r] += objs[o].total;
+                        if r == NF {
+                            vids.extend(objs[o].ids.iter().cloned());
+                        }
+                    }
+                }
+            }
+            Op::AssertAny(r) => {
+                if wt[*r].map(|e| objs[e].total).unwrap_or(0) == 0 {
+                    return fail("c09-assert-passed", i, op, "assertion passed on an empty worktop".into());
+                }
+            }
+            Op::Assert(r, a) => {
+                let have = wt[*r].map(|e| objs[e].total).unwrap_or(0);
+                if have < *a {
+                    return fail("c09-assert-passed", i, op, format!("assertion of {} passed with {} on the worktop", a, have));
+                }
+            }
+            Op::AssertNf(ids) => {
+                if !fuzzy {
+                    let have = wt[NF].map(|e| objs[e].ids.clone()).unwrap_or_default();
+                    if let Some(x) = ids.iter().find(|x| !have.contains(x)) {
+                        return fail("c09-assert-passed", i, op, format!("assertion passed although {} is not on the worktop", x));
+                    }
+                }
+            }
+            Op::BProof(b, _) | Op::BProofNf(b, _) | Op::BProofAll(b) => {
+                let o = match named.get(*b as usize).and_then(|x| *x) {
+                    Some(o) => o,
+                    None => return fail("c09-use-after-consume", i, op, "a bucket id that is not live was accepted".into()),
+                };
+                let (amt, is) = match op {
+                    Op::BProof(_, a) => (*a, BTreeSet::new()),
+                    Op::BProofNf(_, ids) => (0, set(ids)),
+                    _ => (if objs[o].res == NF { 0 } else { objs[o].total }, objs[o].ids.clone()),
+                };
+                if objs[o].res != NF {
+                    if !valid_amt(amt, objs[o].res) || amt == 0 {
+                        return fail("c10-divisibility", i, op, "a proof of an invalid or zero amount was created".into());
+                    }
+                    if amt > objs[o].total {
+                        return fail("c10-proof-exceeds-total", i, op, format!("proof of {} on a bucket holding {}", amt, objs[o].total));
+                    }
+                } else if !fuzzy {
+                    if let Some(x) = is.iter().find(|x| !objs[o].ids.contains(x)) {
+                        return fail("c10-proof-exceeds-total", i, op, format!("proof of non-fungible {} the bucket does not hold", x));
+                    }
+                }
+                proofs.push(Some(PProof { src: PSrc::Obj(o), amt, ids: is }));
+            }
+            Op::Clone(p) => {
+                let pr = match proofs.get(*p as usize).and_then(|x| x.clone()) {
+                    Some(pr) => pr,
+                    None => return fail("c09-use-after-consume", i, op, "a proof id that is not live was accepted".into()),
+                };
+                proofs.push(Some(pr));
+            }
+            Op::Drop(p) => {
+                if proofs.get_mut(*p as usize).and_then(|x| x.take()).is_none() {
+                    return fail("c09-use-after-consume", i, op, "a proof id that is not live was accepted".into());
+                }
+            }
+            Op::DropAll | Op::DropNamed => {
+                for p in proofs.iter_mut() {
+                    *p = None;
+                }
+            }
+        }
+    }
+    // end of a successful transaction: nothing may be left behind
+    for r in 0..NRES {
+        if let Some(e) = wt[r] {
+            if objs[e].total != 0 {
+                return Some(("c09-leftover:worktop".into(), format!("transaction succeeded with {} of resource {} left on the worktop", objs[e].total, r)));
+            }
+        }
+    }
+    if named.iter().any(|x| x.is_some()) {
+        return Some(("c09-leftover:bucket".into(), "transaction succeeded with an unconsumed named bucket".into()));
+    }
+    // conservation: what the account holds + what was burned = what it held at the start; the receipt
+    // agrees with the books
+    for r in 0..NRES {
+        let start = if r == NF { 8 * u } else { 100 * u };
+        let bal = balances[r].attos().to_string();
+        let sup = supplies[r].attos().to_string();
+        if bal != t[r].to_string() {
+            return Some(("c09-conservation:balance".into(), format!("resource {}: account holds {} but the books say {}", r, bal, t[r])));
+        }
+        if sup != (start - burned[r]).to_string() {
+            return Some(("c09-conservation:supply".into(), format!("resource {}: total supply {} but start {} minus burned {}", r, sup, start, burned[r])));
+        }
+        if r != NF {
+            let d = deltas.get(&r).cloned().unwrap_or("0".to_string());
+            if d != (t[r] - start).to_string() {
+                return Some(("c09-conservation:receipt".into(), format!("resource {}: receipt vault delta {} but balance changed by {}", r, d, t[r] - start)));
+            }
+        }
+    }
+    if !fuzzy {
+        let v: Vec<String> = vids.iter().map(|x| x.to_string()).collect();
+        let want = if v.is_empty() { "-".to_string() } else { v.join(",") };
+        if want != nf_ids {
+            return Some(("c09-conservation:nf-ids".into(), format!("account holds non-fungibles {} but the books say {}", nf_ids, want)));
+        }
+    }
+    if foreign_vault || new_vaults != 0 {
+        return Some(("c09-conservation:foreign-vault".into(), "resources ended up in a vault other than the account's".into()));
+    }
+    None
+}
+
+/// Fully determined fragments. `which` = "c10": vault + proof life cycle on fungible vaults;
+/// "c09": worktop / named-bucket traffic on fungibles without proofs. Returns the predicted answer
+/// class (`ok` or an `err …` string, possibly only a prefix ending in ':').
+pub fn predict_pure(which: &str, ops: &[Op]) -> Option<String> {
+    let u = unit();
+    let pure = ops.iter().all(|op| match (which, op) {
+        ("c10", Op::Withdraw(..) | Op::VBurn(..) | Op::Recall(..) | Op::VProof(..) | Op::Clone(_) | Op::Drop(_) | Op::DropNamed | Op::Balance(_) | Op::DepositAll) => true,
+        ("c09", Op::Withdraw(..) | Op::Recall(..) | Op::Take(..) | Op::TakeAll(_) | Op::Return(_) | Op::Assert(..) | Op::AssertAny(_) | Op::Burn(_) | Op::Deposit(_) | Op::DepositAll | Op::Balance(_)) => true,
+        _ => false,
+    });
+    let no_nf = ops.iter().all(|op| match op {
+        Op::Balance(r) | Op::Take(r, _) | Op::TakeAll(r) | Op::Assert(r, _) | Op::AssertAny(r) => *r != NF,
+        _ => true,
+    });
+    if !pure || !no_nf {
+        return None;
+    }
+    let mut t = [100 * u; 3];
+    let mut live: Vec<Option<(usize, i128)>> = vec![];
+    let mut wt = [0i128; 3];
+    let mut named: Vec<Option<(usize, i128)>> = vec![];
+    for op in ops {
+        match op {
+            Op::Withdraw(r, a) | Op::VBurn(r, a) | Op::Recall(r, a) => {
+                if !valid_amt(*a, *r) {
+                    return Some(format!("err vault:invalid-amount:{}", a));
+                }
+                let ml = live.iter().flatten().filter(|p| p.0 == *r).map(|p| p.1).max().unwrap_or(0);
+                if *a > t[*r] - ml {
+                    return Some(format!("err vault:insufficient:{}:{}", a, t[*r] - ml));
+                }
+                t[*r] -= *a;
+                if !matches!(op, Op::VBurn(..)) {
+                    wt[*r] += *a;
+                }
+            }
+            Op::VProof(r, a) => {
+                if !valid_amt(*a, *r) {
+                    return Some(format!("err vault:invalid-amount:{}", a));
+                }
+                if *a > t[*r] {
+                    // the part above the current maximum is what is missing from the liquid balance
+                    let ml = live.iter().flatten().filter(|p| p.0 == *r).map(|p| p.1).max().unwrap_or(0);
+                    return Some(format!("err vault:insufficient:{}:{}", a - ml, t[*r] - ml));
+                }
+                if *a == 0 {
+                    return Some("err vault:empty-proof".to_string());
+                }
+                live.push(Some((*r, *a)));
+            }
+            Op::Clone(p) => match live.get(*p as usize).and_then(|x| *x) {
+                Some(x) => live.push(Some(x)),
+                None => return Some(format!("err tp:proof-not-found:{}", p)),
+            },
+            Op::Drop(p) => {
+                if live.get_mut(*p as usize).and_then(|x| x.take()).is_none() {
+                    return Some(format!("err tp:proof-not-found:{}", p));
+                }
+            }
+            Op::DropNamed => live.iter_mut().for_each(|x| *x = None),
+            Op::Balance(_) => {}
+            Op::DepositAll => {
+                for r in 0..3 {
+                    t[r] += wt[r];
+                    wt[r] = 0;
+                }
+            }
+            Op::Take(r, a) => {
+                if *a == 0 {
+                    named.push(Some((*r, 0)));
+                } else if wt[*r] == 0 || wt[*r] < *a {
+                    return Some("err worktop:insufficient".to_string());
+                } else if wt[*r] == *a {
+                    wt[*r] = 0;
+                    named.push(Some((*r, *a)));
+                } else if !valid_amt(*a, *r) {
+                    return Some(format!("err bucket:invalid-amount:{}", a));
+                } else {
+                    wt[*r] -= *a;
+                    named.push(Some((*r, *a)));
+                }
+            }
+            Op::TakeAll(r) => {
+                named.push(Some((*r, wt[*r])));
+                wt[*r] = 0;
+            }
+            Op::Return(b) | Op::Burn(b) | Op::Deposit(b) => {
+                let (r, a) = match named.get_mut(*b as usize).and_then(|x| x.take()) {
+                    Some(x) => x,
+                    None => return Some(format!("err tp:bucket-not-found:{}", b)),
+                };
+                match op {
+                    Op::Return(_) => wt[r] += a,
+                    Op::Deposit(_) => t[r] += a,
+                    _ => {}
+                }
+            }
+            Op::AssertAny(r) => {
+                if wt[*r] == 0 {
+                    return Some("err worktop:assertion".to_string());
+                }
+            }
+            Op::Assert(r, a) => {
+                if wt[*r] < *a {
+                    return Some("err worktop:assertion".to_string());
+                }
+            }
+            _ => return None,
+        }
+    }
+    if wt.iter().any(|x| *x != 0) {
+        return Some("err rm:drop-non-empty".to_string());
+    }
+    if named.iter().any(|x| x.is_some()) {
+        return Some("err kernel:orphaned-nodes".to_string());
+    }
+    Some("ok".to_string())
+}
+
+pub fn oracle_for(which: &str, ops: &[Op], out: &Outcome) -> Option<(String, String)> {
+    let verdict = match out {
+        Outcome::Ok { queries, balances, supplies, nf_ids, deltas, foreign_vault, new_vaults } => check_success(ops, queries, balances, supplies, nf_ids, deltas, *foreign_vault, *new_vaults),
+        Outcome::Err(c, _) => {
+            if c.starts_with("kernel:") && c != "kernel:node-borrowed" && c != "kernel:orphaned-nodes" || c.starts_with("system:") || c.starts_with("other:") || c == "rejected" || c == "aborted" {
+                Some((format!("{}-unexpected-error:{}", which, c), format!("transaction failed with an error outside the resource rules: {}", c)))
+            } else {
+                None
+            }
+        }
+    };
+    // keep only the clauses of the property being checked
+    let verdict = verdict.filter(|(k, _)| k.starts_with(which));
+    if verdict.is_some() {
+        return verdict;
+    }
+    if let Some(pred) = predict_pure(which, ops) {
+        let got = match out {
+            Outcome::Ok { .. } => "ok".to_string(),
+            Outcome::Err(c, _) => format!("err {}", c),
+        };
+        if got != pred {
+            return Some((format!("{}-pure-outcome:{}", which, pred.split(':').take(2).collect::<Vec<_>>().join(":")), format!("the property determines the outcome `{}` but the engine answered `{}`", pred, got)));
+        }
+    }
+    None
+}
